@@ -571,6 +571,19 @@ func C02(c *core.Ctx) {
 	handedOn(c, "R5", []string{"PDR", "FAR"})
 	// R7: SDF filter sides: the in-place uplink swap works on an object of its own (shared with C16 R4)
 	flowDescOwned(c, "R7")
+	// "SDF filters (source and destination swapped for uplink PDRs)": the swap rules of C16 R4 seen from here
+	if f16, ok := Registry["C16"]; ok {
+		sub, _ := core.NewCtx(c.P, "C16", c.Tier, c.Seed, c.OutDir, "")
+		f16(sub)
+		n := 0
+		for _, o := range sub.Obls {
+			if o.Rule == "R4" && strings.Contains(o.Key, "/R4/swap") {
+				n++
+				c.Check("R7", "sdf-"+o.Key[strings.Index(o.Key, "/R4/")+4:], token.NoPos, o.OK, o.Desc+" (C16 R4)")
+			}
+		}
+		c.Floor("R7", n, 6, "uplink swap obligations")
+	}
 	c.Floor("R2", c.Counts["R2"], 40, "PDR/FAR attribute rows compared")
 	// R6: the apply-action bits written are those of the IE: the decoder the FAR builders call (shared with C19 R3)
 	if m := c.P.Method(pkgReport, "ApplyAction", "Unmarshal"); m != nil {
